@@ -77,6 +77,14 @@ def degenerate_modules(tier):
     add("DEFAULT naming cyclic value references", "a BOOLEAN ::= b b BOOLEAN ::= a S ::= SEQUENCE { x BOOLEAN DEFAULT a, y INTEGER DEFAULT c } c INTEGER ::= d d INTEGER ::= c")
     add("cyclic value references of a referenced type", f"T ::= INTEGER (0..{P1}) a T ::= b b T ::= a E ::= ENUMERATED {{ x }} e E ::= f f E ::= e")
     add("cyclic value references inside values", "L ::= SEQUENCE OF BOOLEAN a BOOLEAN ::= b b BOOLEAN ::= a Ll ::= SEQUENCE OF BOOLEAN v Ll ::= { a, b } C ::= CHOICE { p BOOLEAN } w C ::= p:a")
+    # rho-shaped chains: the cycle does not contain the name the chain starts from
+    add("value reference chain into a self-reference", "a BOOLEAN ::= b b BOOLEAN ::= c c BOOLEAN ::= c")
+    add("value reference chain into a 2-cycle", "a INTEGER ::= b b INTEGER ::= c c INTEGER ::= d d INTEGER ::= c e UTF8String ::= f f UTF8String ::= g g UTF8String ::= h h UTF8String ::= g")
+    add("DEFAULT naming a chain into a cycle", "S ::= SEQUENCE { flag BOOLEAN DEFAULT first } first BOOLEAN ::= second second BOOLEAN ::= third third BOOLEAN ::= second")
+    add("object set chain into a cycle", "C ::= CLASS { &id INTEGER UNIQUE } Zz C ::= { Bb } Bb C ::= { Cc } Cc C ::= { Bb }")
+    add("object set cycle", "C ::= CLASS { &id INTEGER UNIQUE } Aa C ::= { Bb } Bb C ::= { Aa } Dd C ::= { Dd }")
+    add("value of a hyphenated type with an inline choice", f"My-Seq ::= SEQUENCE {{ c CHOICE {{ a INTEGER, b BOOLEAN }} }} v My-Seq ::= {{ c a:{P1} }}")
+    add("value of a hyphenated type with inline members", f"My-Seq ::= SEQUENCE {{ c SEQUENCE {{ a INTEGER }}, e ENUMERATED {{ x, y }}, l SEQUENCE OF INTEGER }} v My-Seq ::= {{ c {{ a {P1} }}, e y, l {{ 1, 2 }} }}")
     add("constraint on cyclic value references", "a INTEGER ::= b b INTEGER ::= a T ::= INTEGER (a..MAX)")
     add("self-referencing constraint value", "a INTEGER (0..a) ::= 5")
     add("components of itself", "A ::= SEQUENCE { x NULL, COMPONENTS OF A }")
